@@ -217,7 +217,7 @@ def write_evidence(pid, tier, seed, level, coverage, wall, violations, assumptio
     ev = dict(property_id=pid, tier=tier, seed=seed, level=level, coverage=coverage,
               assumptions=assumptions, wall_s=round(wall, 2), violations=violations)
     path = os.path.join(EVIDENCE_DIR, pid + '.json')
-    tmp = path + '.tmp'
+    tmp = path + '.%d.tmp' % os.getpid()
     with open(tmp, 'w') as f:
         json.dump(ev, f, indent=1, sort_keys=True)
         f.write('\n')
